@@ -35,7 +35,7 @@ static int c17_main(int argc,char **argv){
     int n=split(line,tok,16);
     if(n==0){ free(line); continue; }
     if(!strcmp(tok[0],"case")){
-      printf("== case %s\n",n>1?tok[1]:"?"); fflush(stdout);
+      printf("== case %s\n",n>1?tok[1]:"?"); fflush(stdout); case_watchdog();
     }else if(!strcmp(tok[0],"stream")&&n>=7){
       mk_params P; int rc;
       if(open){ ov_clear(&vf); open=0; }
